@@ -25,6 +25,9 @@ enum Op {
     Poison(usize),
     Cancel(usize),
     CancelThenPanic(usize),
+    /// the abandoned closure is still running when the connection is returned and the next get()
+    /// recycles it; the closure ends by panicking or by leaving the connection broken
+    ReturnWhileRunning(usize),
     Break(usize),
     Return(usize),
 }
@@ -267,7 +270,8 @@ pub fn history(backend: Backend, seed: u64, idx: u64) -> Case {
                         45..=56 => Op::Poison(i),
                         57..=59 => Op::Cancel(i),
                         60..=62 => Op::CancelThenPanic(i),
-                        63..=74 => Op::Break(i),
+                        63..=66 => Op::ReturnWhileRunning(i),
+                        67..=76 => Op::Break(i),
                         _ => Op::Return(i),
                     }
                 }
@@ -346,6 +350,151 @@ pub fn history(backend: Backend, seed: u64, idx: u64) -> Case {
                         let _ = bad_fn.lock().unwrap().insert(held[i].1);
                         log.push(format!("abandoned interaction on #{} panicked", held[i].1));
                         *counters.entry("cancelled_then_panicked".into()).or_insert(0) += 1;
+                    }
+                }
+                Op::ReturnWhileRunning(i) => {
+                    // only when the returned connection is the one the next get() must look at
+                    if bad.contains(&held[i].1) || pool.status().available != 0 {
+                        continue;
+                    }
+                    use std::sync::atomic::AtomicBool;
+                    let started = Arc::new(AtomicBool::new(false));
+                    let gate = Arc::new(AtomicBool::new(false));
+                    let marked = Arc::new(AtomicBool::new(false));
+                    let panic_end = rng.chance(1, 2);
+                    let invalid_not_broken = rng.chance(1, 2);
+                    let (st, g) = (started.clone(), gate.clone());
+                    let wait = move || {
+                        st.store(true, Ordering::SeqCst);
+                        for _ in 0..40_000 {
+                            if g.load(Ordering::SeqCst) {
+                                break;
+                            }
+                            std::thread::sleep(Duration::from_micros(250));
+                        }
+                    };
+                    let mk = marked.clone();
+                    let serial = held[i].1;
+                    let short = Duration::from_micros(50);
+                    match (&held[i].0, &pool) {
+                        (AnyConn::Sqlite(c), _) => drop(
+                            tokio::time::timeout(short, c.interact(move |_| -> () {
+                                wait();
+                                mk.store(true, Ordering::SeqCst);
+                                std::panic::panic_any(InjectedPanic(17))
+                            }))
+                            .await,
+                        ),
+                        (AnyConn::R2d2(c), AnyPool::R2d2(_, sh)) => {
+                            if !panic_end {
+                                if invalid_not_broken {
+                                    let _ = sh.invalid.lock().unwrap().insert(serial);
+                                } else {
+                                    let _ = sh.broken.lock().unwrap().insert(serial);
+                                }
+                            }
+                            drop(
+                                tokio::time::timeout(short, c.interact(move |_| {
+                                    wait();
+                                    if panic_end {
+                                        mk.store(true, Ordering::SeqCst);
+                                        std::panic::panic_any(InjectedPanic(17))
+                                    }
+                                }))
+                                .await,
+                            )
+                        }
+                        (AnyConn::Diesel(c), _) => drop(
+                            tokio::time::timeout(short, c.interact(move |c| {
+                                use diesel::connection::{AnsiTransactionManager, TransactionManager};
+                                wait();
+                                if panic_end {
+                                    mk.store(true, Ordering::SeqCst);
+                                    std::panic::panic_any(InjectedPanic(17))
+                                }
+                                if AnsiTransactionManager::begin_transaction(c).is_ok() {
+                                    mk.store(true, Ordering::SeqCst);
+                                }
+                            }))
+                            .await,
+                        ),
+                        _ => unreachable!(),
+                    }
+                    for _ in 0..2000 {
+                        if started.load(Ordering::SeqCst) {
+                            break;
+                        }
+                        tokio::time::sleep(Duration::from_micros(250)).await;
+                    }
+                    if !started.load(Ordering::SeqCst) {
+                        // the closure never got a thread: nothing can be said about this connection
+                        gate.store(true, Ordering::SeqCst);
+                        let (c, m) = held.swap_remove(i);
+                        c.wait_unlocked().await;
+                        log.push(format!("abandoned closure on #{} did not start in time; connection taken out of the pool", m));
+                        match c {
+                            AnyConn::Sqlite(c) => drop(deadpool_sqlite::Object::take(c)),
+                            AnyConn::R2d2(c) => drop(deadpool::managed::Object::take(c)),
+                            AnyConn::Diesel(c) => drop(deadpool_diesel::sqlite::Object::take(c)),
+                        }
+                        continue;
+                    }
+                    let (c, m) = held.swap_remove(i);
+                    // r2d2, no panic: the backend reports the connection as broken / invalid from now on, i.e.
+                    // before the get() below even starts - whatever the closure and the recycle do in which order
+                    let reported_before = matches!(backend, Backend::R2d2) && !panic_end;
+                    if reported_before {
+                        let _ = bad.insert(m);
+                        returned_bad = true;
+                    }
+                    log.push(format!(
+                        "returned #{} while an abandoned closure still runs on it ({})",
+                        m,
+                        if reported_before { "the backend already reports it broken" } else if panic_end { "the closure will panic" } else { "the closure will leave it broken" }
+                    ));
+                    drop(c);
+                    let fut = pool.get();
+                    tokio::pin!(fut);
+                    // every recycle goes through interact(), i.e. it queues behind the running closure
+                    let early = tokio::time::timeout(Duration::from_millis(if reported_before { 2 } else { 25 }), &mut fut).await;
+                    gate.store(true, Ordering::SeqCst);
+                    let (res, was_early) = match early {
+                        Ok(r) => (r, true),
+                        Err(_) => (fut.await, false),
+                    };
+                    *counters.entry(if was_early { "get_finished_while_closure_ran" } else { "get_waited_for_abandoned_closure" }.to_string()).or_insert(0) += 1;
+                    match res {
+                        Ok(c2) => {
+                            // the closure owns the connection until it ends
+                            c2.wait_unlocked().await;
+                            next_serial += 1;
+                            let judged = reported_before || !was_early;
+                            if judged && marked.load(Ordering::SeqCst) {
+                                // the get() returned after the closure had ended badly
+                                let _ = bad.insert(m);
+                                let _ = bad_fn.lock().unwrap().insert(m);
+                                returned_bad = true;
+                                *counters.entry("recycled_while_abandoned_closure_ran".into()).or_insert(0) += 1;
+                            }
+                            // a poisoned connection cannot be asked for its marker; only #m can be poisoned here
+                            let m2 = if c2.is_poisoned() { Some(m) } else { c2.marker(next_serial).await.ok() };
+                            match m2 {
+                                Some(m2) => {
+                                    if judged {
+                                        check_handout(&c2, m2, &bad, &mut log, &mut viol);
+                                    } else {
+                                        log.push(format!("handed out #{} (while the closure was still running: not judged)", m2));
+                                    }
+                                    if marked.load(Ordering::SeqCst) {
+                                        let _ = bad.insert(m);
+                                        let _ = bad_fn.lock().unwrap().insert(m);
+                                    }
+                                    held.push((c2, m2));
+                                }
+                                None => viol.push(Violation { prop: "C15", oracle: "unusable_connection_issued", msg: format!("the connection handed out after #{} was returned with a running closure could not be used", m) }),
+                            }
+                        }
+                        Err(e) => viol.push(Violation { prop: "C15", oracle: "pool_stopped_serving", msg: format!("get() after returning #{} with a running closure failed: {}", m, e) }),
                     }
                 }
                 Op::Break(i) => {
